@@ -114,15 +114,28 @@ func genMulti(rng *rand.Rand, name string) *fixture.Geo {
 	if rng.IntN(3) == 0 { // padding files (BEP 47 style and free-form)
 		var out []fixture.File
 		for i, f := range files {
-			out = append(out, f)
-			if rng.IntN(2) == 0 {
-				p := []string{".pad", fmt.Sprint(i)}
-				if rng.IntN(3) == 0 {
-					p = []string{fmt.Sprintf("_____padding_file_%d", i)}
-				}
-				if !conflict(p) {
-					out = append(out, fixture.File{Path: p, Length: int64(1 + rng.IntN(5000)), Pad: true})
-				}
+			if rng.IntN(2) != 0 {
+				out = append(out, f)
+				continue
+			}
+			p := []string{".pad", fmt.Sprint(i)}
+			before := false
+			switch rng.IntN(5) {
+			case 0:
+				p = []string{fmt.Sprintf("_____padding_file_%d", i)}
+			case 1, 2:
+				// some torrent makers put the padding next to the file it pads, after it or before the next one:
+				// the padding file can be the first entry of a directory that also holds real files
+				p = append(append([]string(nil), f.Path[:len(f.Path)-1]...), fmt.Sprintf(".pad%d", i))
+				before = rng.IntN(2) == 0
+			}
+			pf := fixture.File{Path: p, Length: int64(1 + rng.IntN(5000)), Pad: true}
+			if conflict(p) {
+				out = append(out, f)
+			} else if before {
+				out = append(out, pf, f)
+			} else {
+				out = append(out, f, pf)
 			}
 		}
 		files = out
